@@ -47,7 +47,7 @@ func threadWorker(thread *Thread, queue chan *Promise) {
 			panic(fmt.Sprintf("invalid promise body: %T", task.Body))
 		}
 
-		thread.state = idleState
+		thread.ResetError()
 	}
 }
 
